@@ -93,6 +93,9 @@ static Janet *mk_args(int self_any_size) {
   g_part.items = items;
   g_idx = nd_i32(); g_idx2 = nd_i32(); g_j = nd_i32(); g_grown = 0;
   if (g_argc > 0) { __CPROVER_assume(janet_checktype(argv[0], JANET_ARRAY)); g_self_bits = argv[0].u64; }
+  /* representation invariant of a nanboxed value: its tag bits are those of its type (NaN payloads other than the
+   * canonical tags - e.g. a quiet NaN with the sign bit clear - are never produced by janet_wrap_*) */
+  for (int k = 1; k < 3; k++) if (k < g_argc) __CPROVER_assume(janet_checktype(argv[k], janet_type(argv[k])));
   g_oldcount = g_arr->count; g_oldcap = g_arr->capacity;
   g_val_set = 0;
   if (g_idx >= 0 && g_idx < g_oldcount) { g_val = g_arr->data[g_idx].u64; g_val_set = 1; }
